@@ -5,12 +5,3 @@ import (
 )
 
 func sdkAccFromBech32(s string) ([]byte, error) { return sdk.AccAddressFromBech32(s) }
-
-func (w *World) applyProbeStep(st Step) (string, bool) {
-	if st.K == "probe.drained" {
-		return "ok", true
-	}
-	return "", false
-}
-func (w *World) genProbeStep(kind string, r *Rand, sub uint64) (Step, bool) { return Step{}, false }
-func selftest(args []string) int                                            { return 0 }
